@@ -13,7 +13,7 @@ From Coq Require Import List Bool Arith ZArith NArith QArith Qcanon Permutation.
 From DV Require Import Common.Res Common.Str Common.Jv
   Stack.Model Stack.ProofsShape Stack.ProofsInv Stack.ProofsC12
   Orient.Model Conv.Geom Conv.Header Conv.ExamplesGeom
-  Ext.Types Ext.Model Ext.Spec Conv.Meta Conv.Full Conv.FullDep Conv.FullEx.
+  Ext.Types Ext.Model Ext.Spec Conv.Meta Conv.Full Conv.FullDep Conv.FullHist Conv.FullEx.
 Import ListNotations.
 Local Open Scope nat_scope.
 
@@ -61,6 +61,32 @@ Proof.
   exact (resorted_det _ _ I1 I2 C1 C2 P sh).
 Qed.
 
+(** Histories of the COMPOSED model (Conv/FullHist.v): steps [hop] = add of file number i, get_shape / get_data /
+    get_affine, or a conversion [HConv code embed] with a voxel-order STRING.  The state a conversion leaves behind
+    is the state component of [conv_full]; it is the state after the sorter-level operations [conv_ops] (= [OToNifti vo
+    embed] at THE voxel-order abstraction the geometry half computes, or the queries a refused conversion got through). *)
+Theorem C12_full_conv_state :
+  forall (V : Type) (veqb : V -> V -> bool) (vnone : V)
+         (gs : list gfile) (ms : list (mfile V)) (st : state) (code : str) (em : bool) (filt : key -> bool),
+    fst (conv_full veqb vnone gs ms st code em filt) = run st (conv_ops gs st code em) /\
+    no_adds (conv_ops gs st code em) = true.
+Proof.
+  intros V veqb vnone gs ms st code em filt.
+  split; [exact (conv_full_state veqb vnone gs ms st code em filt) | exact (conv_ops_no_adds gs st code em)].
+Qed.
+
+(** What the correspondence check of props/convfull.py evaluates for a history -- [conv_full] on [hist_state] = the
+    model AFTER the same adds, queries and conversions, in the sorter's own [run] -- equals the model on ANY history
+    that accepted the same files, in particular on the fresh stack [map OAdd fs]: "code after a history = model after
+    that history" (checked per case) composes with this to "= model on a fresh stack". *)
+Theorem C12_full_hist_history :
+  forall (V : Type) (veqb : V -> V -> bool) (vnone : V)
+         (gs : list gfile) (ms : list (mfile V)) ct cv (hs : list hop) (h' : list op) (code : str) (em : bool) (filt : key -> bool),
+    Permutation (accepted (init ct cv) (hist_ops gs (init ct cv) hs)) (accepted (init ct cv) h') ->
+    snd (conv_full veqb vnone gs ms (hist_state gs (init ct cv) hs) code em filt) =
+    snd (conv_full veqb vnone gs ms (run (init ct cv) h') code em filt).
+Proof. exact @hist_history. Qed.
+
 (* ----------------------------------------------------------------------------- non-vacuity *)
 (** the 8-file sagittal series of Conv/FullEx.v: [fx_h1] = the adds in scrambled order, [fx_h2] = the adds in reverse
     order interleaved with a shape query and three conversions, followed by more queries: the two stacks differ (file
@@ -99,3 +125,28 @@ Example C12_full_resorted_ex :
   snd (get_shape (run (init true true) fx_h2)) = Ok [2; 2; 2; 2; 2] /\
   shape_dirty (run (init true true) fx_h2) = false /\ shape_dirty (run (init true true) fx_h1) = true.
 Proof. repeat split; vm_compute; reflexivity. Qed.
+
+(** a [hop] history on the example: five files in reverse add order, a shape query (refused: incomplete), a conversion
+    with order "RAS" and embedding, the other three files, get_affine, a conversion without reorientation: the
+    translated history is a C12 history whose conversions carry the voxel-order bits the model computed *)
+Definition fx_hops : list hop :=
+  [HAdd 7; HAdd 6; HAdd 5; HAdd 4; HAdd 3; HShape; HConv ex_RAS true; HAdd 2; HAdd 1; HAdd 0; HAffine; HConv [] false].
+
+Example C12_full_hist_history_ex :
+  hist_ops fx_gs (init true true) fx_hops =
+    map (fun i => OAdd (g_file (nth i fx_gs (fx_gf 0 0 0)))) [7; 6; 5; 4; 3] ++ [OGetShape; OGetData] ++
+    map (fun i => OAdd (g_file (nth i fx_gs (fx_gf 0 0 0)))) [2; 1; 0] ++ [OGetAffine; OToNifti None false] /\
+  Permutation (accepted (init true true) (hist_ops fx_gs (init true true) fx_hops)) (accepted (init true true) fx_h1) /\
+  snd (conv_full jv_eqb JNull fx_gs fx_ms (hist_state fx_gs (init true true) fx_hops) ex_LAS true fx_filt) = Ok (fx_go, fx_h, Some fx_e).
+Proof.
+  split; [vm_compute; reflexivity|]. split.
+  - assert (E1 : accepted (init true true) fx_h1 = map g_file fx_gs) by (vm_compute; reflexivity).
+    assert (E2 : accepted (init true true) (hist_ops fx_gs (init true true) fx_hops) = rev (map g_file fx_gs)) by (vm_compute; reflexivity).
+    rewrite E1, E2. symmetry. apply Permutation_rev.
+  - vm_compute. reflexivity.
+Qed.
+
+Example C12_full_conv_state_ex :
+  conv_ops fx_gs fx_st ex_LAS true = [OToNifti (Some true) true] /\
+  conv_ops fx_gs (init true true) ex_LAS true = [OGetData].
+Proof. split; vm_compute; reflexivity. Qed.
